@@ -17,7 +17,7 @@ EXPLANATION = ('Path rule over the CFG of all three instantiations of process_ut
                'dominance of the NUL test over the iterator advance and over appendSlot, non-reachability of any '
                'decode from the zero edge, dataflow of the consumed-character counter into m_numCharinfo/m_numGlyphs. '
                'A path property of one small loop: it holds for every text, encoding and nChars.')
-FLOORS = {'NULSTOP': 3, 'COUNTSYNC': 4, 'ONEDECODE': 3, 'ADVANCEBOUND': 3, 'CONTGUARD': 3}
+FLOORS = {'TEXTFLOW': 3, 'NULSTOP': 3, 'COUNTSYNC': 4, 'ONEDECODE': 3, 'ADVANCEBOUND': 3, 'CONTGUARD': 3}
 
 
 def find_decodes(fn):
@@ -228,10 +228,59 @@ def countsync(run, fx):
                              'stops at a NUL the segment still reports nChars char-infos/slots' % short)
 
 
+def textflow(run, fx):
+    """the caller's text pointer is only ever handed on -- gr_make_seg -> makeAndInitialize -> Segment::read_text -> the _utf_iterator
+    that process_utf_data drives (whose reads NULSTOP / ADVANCEBOUND bound): nobody else looks at the text"""
+    chain = [('gr_make_seg', {'(anonymous namespace)::makeAndInitialize'}),
+             ('(anonymous namespace)::makeAndInitialize', {'graphite2::Segment::read_text'}),
+             ('graphite2::Segment::read_text', {'graphite2::_utf_iterator'})]
+    for q, allowed in chain:
+        fn = fx.one(q)
+        tp = [p_ for p_ in fn.f['params'] if (p_.get('t') or '').replace(' ', '') == 'constvoid*']
+        if len(tp) != 1:
+            run.broken('TEXTFLOW', '%s text parameter' % q.split('::')[-1], 'expected exactly one `const void *` parameter, found %d' % len(tp), fn.where())
+            continue
+        vid = tp[0]['vid']
+        par = fn.parents()
+        uses = [e for _, e in fn.elements() if e['k'] == 'DeclRefExpr' and e.get('vid') == vid]
+        bad = None
+        for u in uses:
+            cur = u['i']
+            ok = False
+            for _ in range(6):
+                ups = par.get(cur) or []
+                if not ups:
+                    break
+                p_ = fn.nodes[ups[0]]
+                if p_['k'] in ('CallExpr', 'CXXMemberCallExpr', 'CXXConstructExpr', 'CXXTemporaryObjectExpr', 'CXXFunctionalCastExpr') and \
+                        any((p_.get('fq') or '').startswith(a) for a in allowed):
+                    ok = True
+                    break
+                if p_['k'].endswith('CastExpr') and p_['k'] in ('ImplicitCastExpr',) or p_['k'] in ('ParenExpr', 'MaterializeTemporaryExpr', 'CXXBindTemporaryExpr', 'ExprWithCleanups'):
+                    cur = p_['i']
+                    continue
+                if p_['k'] == 'CXXFunctionalCastExpr':
+                    cur = p_['i']
+                    continue
+                break
+            if not ok:
+                bad = u
+                break
+        inst = 'text pointer in %s' % q.split('::')[-1]
+        if not uses:
+            run.broken('TEXTFLOW', inst, 'the text parameter is never used', fn.where())
+        elif bad is None:
+            run.held('TEXTFLOW', inst, fn.where(), '%d use(s), all forwarded to %s' % (len(uses), sorted(allowed)))
+        else:
+            run.violated('TEXTFLOW', inst, fn.loc(bad), '%s uses the caller\'s text pointer other than by handing it on to %s: text is read outside the decoder loop, '
+                         'whose NUL stop and nChars bound are what keeps reads inside the caller\'s buffer' % (q.split('::')[-1], sorted(allowed)))
+
+
 def run(run):
     fx = run.facts('Q0')
     nulstop(run, fx)
     countsync(run, fx)
+    textflow(run, fx)
     from . import c11
     c11.advancebound(run, fx)      # the iterator must not step over a unit it did not vet (the terminating NUL)
     c11.contguard(run, fx)
